@@ -47,6 +47,15 @@ impl SimClock {
         let (mt, ct, sz) = real_key(m);
         self.stamps.insert(key, (mt, ct, sz, self.now));
     }
+
+    /// Forces a stamp with an explicit tick (a future-dated file, or an edit
+    /// that preserves the previous modification time as `touch -r`, `rsync -t`
+    /// or `tar` do).
+    pub fn restamp_at(&mut self, m: &Metadata, tick: i64) {
+        let key = (m.dev(), m.ino());
+        let (mt, ct, sz) = real_key(m);
+        self.stamps.insert(key, (mt, ct, sz, tick));
+    }
 }
 
 pub fn translate_mtime(metadata: &Metadata) -> Option<i64> {
